@@ -98,6 +98,8 @@ fn main() {
                 let f = &r["fault"];
                 let fault = if let Some(o) = f.get("outage") {
                     e1o::Fault::Outage { rpc: o[0].as_u64().unwrap(), polls_down: o[1].as_u64().unwrap() as u32, with_following_chain_ops: o[2].as_bool().unwrap() }
+                } else if let Some(d) = f.get("idle_outage") {
+                    e1o::Fault::IdleOutage { op: d[0].as_u64().unwrap() as usize, back_on: d[1].as_u64().unwrap() as u8 }
                 } else {
                     let d = &f["src_failure"];
                     e1o::Fault::SrcFailure { op: d[0].as_u64().unwrap() as usize, call: d[1].as_u64().unwrap(), len: d[2].as_u64().unwrap() }
